@@ -206,8 +206,8 @@ def runPrefetchFw (case impl : String) : String × String :=
     let env : Env := ⟨ecs, addr, [⟨none, false, 0, some 0⟩], []⟩
     let q : Question := { q0 with name := lowerName q0.name }
     let out := match packReq env q with
-      | .ok wire => s!"cached=1 rcode=0 fw=0:{hexOfBytes wire}"
-      | _ => "cached=1 rcode=0"
+      | .ok wire => s!"cached=1 rcode=0 after=0,1,0 fw=0:{hexOfBytes wire}"
+      | _ => "cached=1 rcode=0 after=0,1,0"
     let it := words impl
     let fws := (it.filter (·.startsWith "fw=")).filterMap fun t =>
       match (t.drop 3).toString.splitOn ":" with
@@ -216,6 +216,9 @@ def runPrefetchFw (case impl : String) : String × String :=
     let v :=
       if impl == "panic" then "viol:panic"
       else if kvGet it "cached" != some "1" then "viol:C19:hit-not-served-from-cache"
+      -- after the refresh (whose upstream reply carried an OPT with options): a client without EDNS0 gets no
+      -- OPT, a client with EDNS0 gets exactly one OPT without options
+      else if kvGet it "after" != some "0,1,0" then "viol:C12:opt-after-refresh"
       else match fws with
         | [(k, wire)] => if k ≠ 0 then "viol:C10:wrong-upstream" else checkForwarded env q wire
         | [] => "viol:C19:no-refresh"
